@@ -7,7 +7,7 @@ LEVEL = "proof"
 MODEL = "lean/Sentinel/ConcModels.lean (casRun, isPath, tryPassDecision); Spec on scheduled executions of the real breakers"
 RULE = ("one child process per case; one breaker (ErrorCount / ErrorRatio / SlowRequestRatio, retry 1000 ms, min request 1) on a resource, a recording listener whose notifications enter the "
         "schedule log. Scenarios: (a) 2-3 completions that each would open the breaker; (b) breaker tripped in the setup, clock past the retry time, 2-3 threads requesting at once (probe race), "
-        "then completing with/without error; (c) breaker tripped, clock short of the retry time, concurrent requests (must all be rejected) with one thread stepping the clock past it; "
+        "then completing with/without error; (f) a completion that opens the breaker racing with a request; (c) breaker tripped, clock short of the retry time, concurrent requests (must all be rejected) with one thread stepping the clock past it; "
         "(d) probe completion racing with new requests and with completions of entries admitted before the trip; (e) random programs of build / exit / exit-with-error / clock steps. "
         "Schedules as for C14 (sequential, few preemptions, round robin, random), every 4th (thorough: every) single preemption of (a) and (b), and a grid (thorough: all) of two-preemption schedules of (a) and (b) with two threads. Observed: per-thread results in schedule order, the "
         "listener log, the final state. Non-trivial: the breaker opened or a probe ran; distinct = distinct op text.")
@@ -35,7 +35,7 @@ def trip():
 
 
 def case(rng, kind=None, choices=None, n=None):
-    kind = kind or rng.choice("abcde")
+    kind = kind or rng.choice("abcdef")
     n = n or rng.choice([2, 2, 3])
     ops = ["clock", "listener callback=0", rule(rng)]
     if kind == "a":
@@ -55,6 +55,12 @@ def case(rng, kind=None, choices=None, n=None):
             if t == n - 1 and rng.random() < 0.6:
                 ops.append("t%d adv ms=%d" % (t, rng.choice([1, 200, 1100])))
             ops += ["t%d build res=a dir=in" % t, "t%d exit" % t]
+    elif kind == "f":
+        # a completion opens the breaker while another thread requests: the request must see either Closed (before) or Open with
+        # the new retry deadline (after), never Open with a stale deadline (seed C16-e)
+        ops += ["t0 build res=a dir=in", "t0 adv ms=1", "t0 exit err=1", "t1 build res=a dir=in", "t1 exit err=%d" % rng.choice([0, 1])]
+        if n == 3:
+            ops += ["t2 build res=a dir=in", "t2 exit"]
     elif kind == "d":
         # t0 holds an entry admitted before the trip; the trip happens in the schedule
         ops += ["t0 build res=a dir=in", "t1 build res=a dir=in", "t1 adv ms=1", "t1 exit err=1", "t1 build res=a dir=in", "t1 exit err=1",
@@ -82,9 +88,9 @@ def case(rng, kind=None, choices=None, n=None):
 def gen(rng, tier):
     cases = [case(rng) for _ in range(500 if tier == "quick" else 8000)]
     step = 4 if tier == "quick" else 1
-    for kind in "ab":
+    for kind in "abf":
         base = case(rng, kind, choices=[], n=2)
-        for pos in range(0, 200, step):
+        for pos in range(0, 200, step if kind != "f" else (2 if tier == "quick" else 1)):
             c = [0] * (pos + 1); c[pos] = 1
             cases.append(base[:-2] + [fmt(c), "brstate res=a"])
     # two preemptions: t0 runs to a point, t1 runs k points (e.g. wins the Open->Half-Open race and still holds its probe),
